@@ -1,12 +1,12 @@
 #!/bin/sh
-# queue daemon: processes lines "<seed-id> <ID> [<ID> ...]" appended to work/seedq.txt, one at a time; stop with `touch work/seedq.stop`
+# queue daemon: processes lines "<seed-id> <ID> [<ID> ...]" appended to ${QF:-work/seedq.txt}, one at a time; stop with `touch work/seedq.stop`
 cd /verif
-touch work/seedq.txt; done_n=0
+touch ${QF:-work/seedq.txt}; done_n=0
 while [ ! -f work/seedq.stop ]; do
-  total=$(wc -l < work/seedq.txt)
+  total=$(wc -l < ${QF:-work/seedq.txt})
   if [ "$done_n" -lt "$total" ]; then
     done_n=$((done_n + 1))
-    line=$(sed -n "${done_n}p" work/seedq.txt)
+    line=$(sed -n "${done_n}p" ${QF:-work/seedq.txt})
     [ -n "$line" ] && VERIF_PAR=${VERIF_PAR:-8} bin/seedproc.sh $line >> work/seedq.log 2>&1
   else
     sleep 20
